@@ -216,10 +216,15 @@ class _Facts(ast.NodeVisitor):
 
 
 def _find_function(tree, fname):
-    """The FunctionDef named fname: at module level, or directly inside the module-level factory `_mk`."""
+    """The FunctionDef named fname: at module level, or directly inside the module-level factory `_mk`;
+    or the Lambda of a module-level `fname = lambda ...`."""
     for n in tree.body:
         if isinstance(n, ast.FunctionDef) and n.name == fname:
             return n, None
+    for n in tree.body:
+        if isinstance(n, ast.Assign) and len(n.targets) == 1 and isinstance(n.targets[0], ast.Name) and n.targets[0].id == fname \
+                and isinstance(n.value, ast.Lambda):
+            return n.value, None
     for n in tree.body:
         if isinstance(n, ast.FunctionDef) and n.name == '_mk':
             for m in n.body:
@@ -228,14 +233,19 @@ def _find_function(tree, fname):
     return None, None
 
 
-def _free_names(source, fname):
-    """Names read in the function's text that resolve outside it (CPython's symtable)."""
+def _free_names(source, fname, is_lambda=False):
+    """Names read in the function's text that resolve outside it (CPython's symtable).  For a lambda entity the module
+    must contain exactly one top-level lambda (the harness' lambda templates do)."""
     top = symtable.symtable(source, '<c11>', 'exec')
 
     def find(tab):
         for ch in tab.get_children():
             if ch.get_type() == 'function' and ch.get_name() == fname:
                 return ch
+        if is_lambda:
+            for ch in tab.get_children():
+                if ch.get_type() == 'function' and ch.get_name() == 'lambda':
+                    return ch
         for ch in tab.get_children():
             if ch.get_name() == '_mk':
                 r = find(ch)
@@ -259,17 +269,23 @@ def _free_names(source, fname):
     return out
 
 
-def user_fn_facts(source, fname):
+def user_fn_facts(source, fname, lambda_name='lam'):
     """dict(name, bound, read, readLocal, free, idents): sorted lists.  `read` = reads reaching the body scope."""
     tree = ast.parse(source)
     fn, _ = _find_function(tree, fname)
     if fn is None:
         raise ValueError('function %s not found' % fname)
     v = _Facts()
-    s = v._function(copy.deepcopy(fn), False)
+    is_lambda = isinstance(fn, ast.Lambda)
+    s = v._function(copy.deepcopy(fn), is_lambda)
     read = set(s.read)
-    return {'name': fname, 'bound': sorted(v.bound_all), 'read': sorted(read), 'readLocal': sorted(v.read_any - read),
-            'free': sorted(_free_names(source, fname)), 'idents': sorted(v.idents - {fname} | (v.idents & read))}
+    if is_lambda:
+        # FunctionTransformer.visit_Lambda reserves the Lambda NODE's scope (its definition context), to which only
+        # `read - bound` of the lambda is passed on: seen from there the lambda's own body is a nested scope
+        read = read - s.bound
+    return {'name': lambda_name if is_lambda else fname, 'bound': sorted(v.bound_all), 'read': sorted(read),
+            'readLocal': sorted(v.read_any - read), 'free': sorted(_free_names(source, fname, is_lambda)),
+            'idents': sorted(v.idents - {fname} | (v.idents & read))}
 
 
 # =================================================================================================
@@ -487,6 +503,23 @@ def make_variant(prog_json, role, word, rng):
     return case
 
 
+LAMBDA_TEMPLATES = {
+    'lambda_entity:parameter': ("f = lambda {W}, b, c: tr(1, {W}) + tr(2, b)\n", False),
+    'lambda_entity:read_only_global': ("{W} = 17\nf = lambda a, b, c: tr(1, {W}) + a\n", False),
+    'lambda_entity:nested_lambda_parameter': ("f = lambda a, b, c: (lambda {W}: tr(1, {W}) + 1)(a)\n", False),
+    'lambda_entity:comprehension_target': ("f = lambda a, b, c: [tr(1, {W}) for {W} in (a, b)]\n", False),
+    'lambda_entity:late_global': ("f = lambda a, b, c: tr(1, {W}) + a\n", True),
+}
+
+
+def make_lambda_case(prelude, kind, word):
+    """The entity converted is a lambda (`get_transformed_name` = ag__lam, FunctionTransformer.visit_Lambda asks for `lscope`)."""
+    tmpl, late = LAMBDA_TEMPLATES[kind]
+    return {'source': prelude + tmpl.replace('{W}', word), 'fname': 'f', 'inputs': [[1, 2, 3], [0, -1, 5]], 'decisions': [[]],
+            'recursive': True, 'late_globals': ({word: 23} if late else {}), 'gvar': 'G', 'role': kind, 'word': word,
+            'base': 'lambda', 'probed': False}
+
+
 # =================================================================================================
 # evaluation of one case against the real code
 # =================================================================================================
@@ -503,8 +536,8 @@ def _run(mod, fn, args, decisions, gvar):
     mod.DEC[:] = list(decisions)
     if gvar and hasattr(mod, gvar) and isinstance(getattr(mod, gvar), int):
         setattr(mod, gvar, 0)
-    old = signal.signal(signal.SIGALRM, _alarm)
-    signal.setitimer(signal.ITIMER_REAL, 3.0)
+    old = signal.signal(signal.SIGVTALRM, _alarm)
+    signal.setitimer(signal.ITIMER_VIRTUAL, 4.0)
     try:
         r = fn(*[list(a) if isinstance(a, list) else a for a in args])
         out = ('ret', mod._freeze(r))
@@ -515,8 +548,8 @@ def _run(mod, fn, args, decisions, gvar):
     except Exception as e:  # noqa
         out = ('exc', 'NameError' if isinstance(e, NameError) else type(e).__name__)
     finally:
-        signal.setitimer(signal.ITIMER_REAL, 0)
-        signal.signal(signal.SIGALRM, old)
+        signal.setitimer(signal.ITIMER_VIRTUAL, 0)
+        signal.signal(signal.SIGVTALRM, old)
     g = getattr(mod, gvar, None) if gvar else None
     if not isinstance(g, (int, type(None))):
         g = type(g).__name__
@@ -556,7 +589,8 @@ def eval_case(ws, case, max_runs=12):
             sf = sites[k] if k < len(sites) else ('?', '?')
             res['symbols'].append([root, list(reserved), result, sf[0], sf[1]])
         if tr.passes and isinstance(tr.passes[0].before_annos, list):
-            cands = [a for a in tr.passes[0].before_annos if a[1] == 'BODY_SCOPE']
+            is_lambda = getattr(fn, '__name__', '') == '<lambda>'
+            cands = [a for a in tr.passes[0].before_annos if a[1] == ('SCOPE' if is_lambda else 'BODY_SCOPE')]
             if cands:
                 a = min(cands, key=lambda a: a[0])
                 for part in a[2][1:]:
